@@ -907,6 +907,9 @@ class Exec:
         if isinstance(v, Z):
             s = v.t.sort()
             if s == self.S.Py:
+                if name in ("lower", "strip", "format") and self.known_class(v) == "PStr":
+                    # a str method that shares its name with a node field (Slice.lower)
+                    return Bound(v, name)
                 if name in self.S.owners or name.startswith("_") or name == "empty":
                     return self.get_field(v, name, line)
                 return Bound(v, name)
@@ -1267,6 +1270,8 @@ class Exec:
             # aliases of the same list term see the mutation too
             if isinstance(old, Z) and isinstance(value, Z):
                 for k, v in list(env.items()):
+                    if k == "_out0":
+                        continue      # ghost snapshot (a copy) made by the comprehension rule
                     if k != target_expr.id and isinstance(v, Z) and v.t.sort() == old.t.sort() \
                             and v.t.eq(old.t):
                         env[k] = value
@@ -1312,6 +1317,11 @@ class Exec:
     def comprehension(self, e, env):
         if len(e.generators) != 1:
             raise Unsupported("multi-generator comprehension")
+        if self.contract.get("comps"):
+            from . import loops
+            r = loops.run_comprehension(self, e, env)
+            if r is not None:
+                return r
         g = e.generators[0]
         seq = self.ev(g.iter, env)
         if isinstance(seq, (CList, Tup)):
